@@ -16,7 +16,7 @@ def obligations(tier):
         Ob("C13.start.position-rule", "crosshair", "harness.C13:start_position_rule", T, bounds="unbounded symbolic str; window (prev, tok, next)", encodes=ENC[:1]),
         Ob("C13.end.position-rule", "crosshair", "harness.C13:end_position_rule", T, bounds="unbounded symbolic str; window (tok, next)", encodes=ENC[1:]),
         Ob("C13.slider.windows", "crosshair", "harness.C13:slider_windows", T, bounds="opaque tokens, stream length <= 5", encodes=["html5lib/filters/optionaltags.py:Filter.slider"]),
-        Ob("C13.iter.dispatch", "crosshair", "harness.C13:iter_dispatch", T * 2, param={"n": 3 if tier == "quick" else 4},
+        Ob("C13.iter.dispatch", "crosshair", "harness.C13:iter_dispatch", T * 2 if tier == "quick" else 2400, param={"n": 3 if tier == "quick" else 4},
            bounds="stream length <= %d; token types unbounded symbolic str; attributes present/absent; predicate answers arbitrary booleans" % (3 if tier == "quick" else 4),
            encodes=["html5lib/filters/optionaltags.py:Filter.__iter__", "html5lib/filters/optionaltags.py:Filter.slider"]),
         Ob("C13.iter.only-deletes", "crosshair", "harness.C13:iter_only_deletes", T * 2,
